@@ -147,6 +147,7 @@ OUTCOME_CFGS = [
     ("pfi", "joint", 2, 3, 2), ("pfi", "product", 3, 2, 1),
     ("batch", "joint", 3, 2, 1), ("batch", "product", 2, 3, 1),
     ("interval", "joint", 2, 2, 1),
+    ("pfi-override", "joint", 2, 3, 2), ("sage-override", "joint", 2, 2, 2),      # constructor n_inner=1, per-call n_inner_samples=2
     ("original", None, 2, 3, 1), ("original", None, 2, 2, 2), ("original", None, 3, 2, 1),
 ]
 R_OUTCOME = {"quick": 12000, "thorough": 250000}
@@ -157,6 +158,8 @@ def outcome_case(run, idx, cfgspec, runs, seed):
     from ixai.storage import BatchStorage, IntervalStorage
     from ixai.imputer import MarginalImputer
     kind, strat, d, m, n = cfgspec
+    override = kind.endswith("-override")
+    kind = kind.replace("-override", "")
     names = make_names("str", d)
     model = Models("multi" if kind in ("sage", "batch") else "scalar", names, exact=True)
     loss = Losses("hash", exact=True)
@@ -166,7 +169,7 @@ def outcome_case(run, idx, cfgspec, runs, seed):
     y = 7
     random.seed(seed)
     np.random.seed(seed)
-    tag = f"{kind}/{strat}/d={d}/m={m}/n={n}"
+    tag = f"{kind}{'(per-call n_inner override)' if override else ''}/{strat}/d={d}/m={m}/n={n}"
     # exact law
     if kind == "sage":
         dist = chain_dist(names, x, y, rows, n, strat, model, loss, loss.one(y, normalize(model.one(x))))
@@ -189,13 +192,15 @@ def outcome_case(run, idx, cfgspec, runs, seed):
         st = BatchStorage(store_targets=False)
         for r in rows:
             st.update(r)
-        imp = MarginalImputer(model, strat, st)
+        imp = MarginalImputer(model, "".join(list(strat)), st)
         cls = IncrementalSage if kind == "sage" else IncrementalPFI
-        e = cls(model, loss, names, smoothing_alpha=1, storage=st, imputer=imp, n_inner_samples=n, dynamic_setting=True)
+        # runtime-built strategy string (equal to, but not the same object as, the literal)
+        e = cls(model, loss, names, smoothing_alpha=1, storage=st, imputer=imp, n_inner_samples=(1 if override else n), dynamic_setting=True)
         e.explain_one({f: 5 + j for j, f in enumerate(names)}, 1, update_storage=False)   # first call only counts
+        kwc = {"n_inner_samples": n} if override else {}
 
         def draw():
-            r = e.explain_one(x, y, update_storage=False)
+            r = e.explain_one(x, y, update_storage=False, **kwc)
             return tuple(r[f] for f in names)
     elif kind == "batch":
         st = BatchStorage(store_targets=True)
